@@ -1,2 +1,91 @@
-(* C11 theta part -- being written *)
-From DS Require Import Base.Prelude Model.Theta Model.ThetaCodec Spec.ThetaLayout.
+(* C11, theta part -- serialize then deserialize is lossless for compact theta sketches, through
+   the uncompressed (serVer 3) and the compressed (serVer 4) writer.  Statements only; proofs in
+   Proofs/ThetaCodec.v, ThetaCodecReach.v, ThetaBitSym.v, ThetaBitPack.v.
+
+   [csk] = CompactThetaSketch {entries, theta, seed_hash, ordered, empty} (Model/Theta.v);
+   [c_serialize], [c_serialize_v4], [c_serialize_compressed], [c_deserialize sh] model
+   serialize / serialize_v4 / serialize_compressed / deserialize_with_seed (sh = the reader's seed
+   hash) of theta/sketch.rs, byte for byte (Model/ThetaCodec.v); the reader is the REPAIRED code
+   (known_findings.d/theta-*.json).  [c_wf sh c]: entries in (0, theta), 0 < theta <= 2^63-1,
+   ordered => strictly ascending, empty => no entries and theta = 2^63-1, fewer than 2^32 entries,
+   seed hash = sh unless empty.  Equality [Ok c] is equality of the whole value, so every query
+   (estimate, theta, bounds, emptiness, order, iteration) and every re-serialization coincide. *)
+From DS Require Import Base.Prelude Base.BitExp Base.ThetaLib Model.Theta Model.ThetaCodec Spec.ThetaLayout.
+From DS Require Import Proofs.ThetaProofs Proofs.ThetaKmv Proofs.ThetaBitSym Proofs.ThetaBitPack Proofs.ThetaCodec Proofs.ThetaCodecReach.
+Open Scope N_scope.
+
+Theorem c11_theta_roundtrip_uncompressed :
+  forall sh c, c_wf sh c -> c_deserialize sh (c_serialize c) = Ok c.
+Proof. exact roundtrip_v3. Qed.
+
+(* serVer 4: every ordered sketch with entries (delta widths 1..63, any length incl. every length mod 8) *)
+Theorem c11_theta_roundtrip_v4 :
+  forall sh c, c_wf sh c -> c_is_suitable_for_compression c = true ->
+  exists bs, c_serialize_v4 c = Ok bs /\ c_deserialize sh bs = Ok c.
+Proof. exact roundtrip_v4. Qed.
+
+Theorem c11_theta_roundtrip_compressed :
+  forall sh c, c_wf sh c -> exists bs, c_serialize_compressed c = Ok bs /\ c_deserialize sh bs = Ok c.
+Proof. exact roundtrip_compressed. Qed.
+
+(* reachable_wf: whatever compact(ordered) returns for a sketch reached by any history of
+   update/trim/reset is well-formed (theta0 in [1, 2^63-1]: every sampling probability in [2^-63, 1]) *)
+Theorem c11_theta_reachable_wf :
+  forall reorder, reorder_ok reorder -> forall c ops s ordered, cfg_ok c -> reach reorder c ops s ->
+  0 < theta0 c -> theta0 c <= MAX_THETA -> c_seed_hash c < 65536 ->
+  c_wf (c_seed_hash c) (sk_compact s ordered).
+Proof. exact compact_wf. Qed.
+
+(* ---- the bit packers: reflection over the functions translated from theta/bit_pack.rs ---- *)
+(* the symbolic evaluator is sound for every environment *)
+Theorem c11_theta_sym_sound :
+  forall vw rho e l, (forall i, rho i < 2 ^ N.of_nat vw) -> sym vw e = Some l -> agrees rho (den rho e) l.
+Proof. exact sym_sound. Qed.
+
+(* bitpack_gen_correct: for every width 1..63 and ALL u64 values / bytes, the translated
+   pack_bits_w and unpack_bits_w are the big-endian bit stream of the format *)
+Theorem c11_theta_bitpack_gen_correct_pack :
+  forall w vs, (1 <= w <= 63)%nat -> length vs = 8%nat -> Forall (fun x => x < 2 ^ 64) vs ->
+  pack_bits_block vs (N.of_nat w) = Ok (pack_stream w vs).
+Proof. exact pack_block_correct. Qed.
+
+Theorem c11_theta_bitpack_gen_correct_unpack :
+  forall w bs, (1 <= w <= 63)%nat -> length bs = w -> Forall (fun x => x < 2 ^ 8) bs ->
+  unpack_bits_block bs (N.of_nat w) = Ok (map (field w bs) (seq 0 8)).
+Proof. exact unpack_block_correct. Qed.
+
+(* BitPacker / BitUnpacker (the tail of fewer than 8 values) *)
+Theorem c11_theta_bitpacker_correct :
+  forall w vs, (1 <= w <= 63)%nat -> (1 <= length vs <= 7)%nat -> Forall (fun x => x < 2 ^ 64) vs ->
+  pack_tail (N.of_nat w) vs = Ok (pack_stream w vs).
+Proof. exact pack_tail_correct. Qed.
+
+Theorem c11_theta_bitunpacker_correct :
+  forall w r bs, (1 <= w <= 63)%nat -> (1 <= r <= 7)%nat -> Forall (fun x => x < 2 ^ 8) bs ->
+  unpack_tail (N.of_nat w) r bs = Ok (map (field w bs) (seq 0 r)).
+Proof. exact unpack_tail_correct. Qed.
+
+(* pack_unpack_generic: the fields of the packed stream are the values modulo 2^w *)
+Theorem c11_theta_pack_unpack_generic :
+  forall w vs, (1 <= w)%nat ->
+  map (field w (pack_stream w vs)) (seq 0 (length vs)) = map (fun v => v mod 2 ^ N.of_nat w) vs.
+Proof. exact pack_unpack_generic. Qed.
+
+(* non-vacuity: 11 entries (one block of 8 and a tail of 3), 61-bit deltas, estimation mode *)
+Example c11_theta_example :
+  let c := mkC [5; 100; 1000; 70000; 70001; 9000000000; 9000000001; 9000000002; 9000000007;
+                2305843009213693952; 2305843009213693953] 4611686018427387904 12345 true false in
+  c_wf 12345 c /\ c_is_suitable_for_compression c = true /\
+  (exists bs, c_serialize_compressed c = Ok bs /\ length bs = 101%nat /\ c_deserialize 12345 bs = Ok c) /\
+  c_deserialize 12345 (c_serialize c) = Ok c.
+Proof.
+  cbv zeta. split.
+  - constructor; cbn [ce_entries ce_theta ce_seed_hash ce_ordered ce_empty].
+    + repeat constructor; reflexivity.
+    + split; reflexivity || (vm_compute; discriminate).
+    + split; [reflexivity|reflexivity].
+    + reflexivity.
+    + discriminate.
+    + reflexivity.
+  - split; [reflexivity|]. split; [eexists; split; [vm_compute; reflexivity|split; vm_compute; reflexivity]|vm_compute; reflexivity].
+Qed.
